@@ -52,22 +52,36 @@ if not skip_confirm:
     print('CONFIRM', json.dumps(confirm)[:700])
 
 results = {}
-assert sh('git -C /repo status --porcelain').stdout.strip() == '', '/repo not clean'
-a = sh(f'git -C /repo apply {patch}')
-assert a.returncode == 0, a.stderr
+use_wt = os.environ.get('USE_WORKTREE') == '1'      # run the checks against a patched scratch worktree (VERIF_REPO) instead of /repo
+if use_wt:
+    cwt = f'/tmp/wt-check-{os.getpid()}'
+    sh(f'git -C /repo worktree add -q --detach {cwt} HEAD')
+    a = sh(f'git -C {cwt} apply {patch}')
+    assert a.returncode == 0, a.stderr
+    env = dict(os.environ, VERIF_REPO=cwt)
+else:
+    assert sh('git -C /repo status --porcelain').stdout.strip() == '', '/repo not clean'
+    a = sh(f'git -C /repo apply {patch}')
+    assert a.returncode == 0, a.stderr
+    env = dict(os.environ)
 try:
     for prop in props:
-        r = sh(f'./check {prop} --tier quick', cwd=VERIF)
+        r = sh(f'./check {prop} --tier quick', cwd=VERIF, env=env)
         viol = [l for l in r.stdout.splitlines() if l.startswith('VIOLATION')]
         fps = [l.strip() for l in r.stdout.splitlines() if l.strip().startswith('fingerprint:')]
         results[prop] = dict(rc=r.returncode, violations=len(viol), first=fps[:3], tail=r.stdout.strip().splitlines()[-1:] )
         print('CHECK', prop, 'rc', r.returncode, 'violations', len(viol), fps[:2])
 finally:
-    sh('git -C /repo checkout -- .')
+    if use_wt:
+        sh(f'git -C /repo worktree remove --force {cwt}')
+        shutil.rmtree(cwt, ignore_errors=True)
+    else:
+        sh('git -C /repo checkout -- .')
     # evidence files were rewritten by the run on the patched tree: restore the committed ones
     sh('git checkout -- evidence', cwd=VERIF)
     shutil.rmtree(os.path.join(VERIF, 'evidence', 'replays'), ignore_errors=True)
-assert sh('git -C /repo status --porcelain').stdout.strip() == ''
+if not use_wt:
+    assert sh('git -C /repo status --porcelain').stdout.strip() == ''
 
 out = os.path.join(VERIF, 'seeded', sid)
 os.makedirs(out, exist_ok=True)
